@@ -7,7 +7,7 @@ PROP = 'C10'
 def run(tier, seed):
     return netcheck.run_net(PROP, tier, seed,
         profiles=[('idl', 100, 1200, 45), ('rdl', 100, 1200, 45), ('mix', 20, 200, 40)],
-        rule='seeded sets of difference constraints over 1-3 time points plus the origin (several constraints on the same pair, '
+        rule='(1) every transition of the state graph of the implementation-shaped model DiffLogicImpl (spec/DiffLogicGen.tla prints one test per transition: shortest history to the source state + the action) replayed on idl_theory and rdl_theory, the reported distance matrix compared with the model after every level episode, pop and conflict backjump; (2) seeded sets of difference constraints over 1-3 time points plus the origin (several constraints on the same pair, '
              'initial matrix of 2 so that it grows, integer and half-integer weights with infinitesimals) asserted, negated and '
              'retracted in random orders; after every successful propagation the reported matrix equals the Floyd-Warshall '
              'closure of the currently asserted constraints (negated ones included), no undecided constraint is decided by the '
@@ -15,6 +15,7 @@ def run(tier, seed):
              'distinct_nontrivial = distinct executions that assume at least one distance literal',
         models=[('MC_DiffLogicImpl', 'MC_DiffLogicImpl_quick.cfg', 'MC_DiffLogicImpl.cfg',
                  'implementation-shaped model of idl_theory (incremental update, predecessors, enforcing constraints, first-write-wins undo layers): DistExact, ConflictIffNegCycle, ExplanationsValid, PopRestores* over all assert / negate / push / pop histories', None)],
+        dlimpl=(False, True),
         assumptions=['at most 6 theory atoms per execution'])
 
 
